@@ -50,6 +50,17 @@ class Gen:
         if 'retry' in self.features and self.rnd.random() < 0.12:
             kw['use_default'] = True
             self.tags.add('retry')
+        # two parameters bound to the same source node collapse into one graph edge (finding D10, property C15);
+        # the run-time properties are studied on programs without that shape
+        seen = set()
+        uniq = []
+        for p in params:
+            if p['kind'] == 'input':
+                if p['node'] in seen:
+                    continue
+                seen.add(p['node'])
+            uniq.append(p)
+        params = uniq
         node = N(nid, *params, **kw)
         self.nodes.append(node)
         self.plan_for(node)
@@ -109,7 +120,9 @@ class Gen:
         cons = self.add(self.fresh(), SW('p1', sw, cases, name='sw_' + sw), *extra)
         self.pool.append(cons)
         if r.random() < 0.3:
-            self.pool.append(r.choice(cases)[1])
+            c = r.choice(cases)[1]
+            if c not in self.pool:
+                self.pool.append(c)
 
     def block_oneof(self):
         r = self.rnd
